@@ -1,0 +1,22 @@
+//go:build verif
+
+// Contracts for govc (comment-only file; see /verif/DESIGN.md section 3).
+// Generated skeleton (tools/gen_zk_contracts.py): nil-safety of the verifier side for arbitrary decoded proofs.
+package zkmod
+
+//@ func (*Proof).IsValid
+//@   nopanic[C05]
+//@   inline
+//@   requires public.N != nil
+
+//@ func (*Response).Verify
+//@   nopanic[C05]
+
+//@ func (*Proof).Verify
+//@   nopanic[C05]
+//@   requires public.N != nil && hash != nil && hash.h != nil
+
+//@ func challenge
+//@   nopanic[C05]
+//@   inline
+//@   requires hash != nil && hash.h != nil
